@@ -11,6 +11,7 @@ PROP = 'C05'
 LEAN_TARGETS = ['Props.C05']
 REQUIRED_THEOREMS = ['Props.C05.flatten_spec', 'Props.C05.unfold_dim_spec', 'Props.C05.sum_spec', 'Props.C05.matmul_spec',
                      'Props.C05.iteration_protocol', 'Props.C05.ctor_shape_forms', 'Props.C05.operator_forms', 'Props.C05.transpose_spec', 'Props.C05.movedim_spec', 'Props.C05.reshape_spec', 'Props.C05.concat_spec', 'Props.C05.stack_spec', 'Props.C05.unbind_spec', 'Props.C05.index_spec', 'Props.C05.mul_spec', 'Props.C05.mean_spec', 'Props.C05.max_spec', 'Props.C05.squeeze_many_spec', 'Props.C05.unsqueeze_spec']
+REQUIRED_THEOREMS += ['Props.C05.' + t for t in ['src_calls_transpose', 'src_calls_movedim', 'src_calls_reshape', 'src_calls_unsqueeze', 'src_calls_matmul', 'src_calls_addmm_forward', 'src_calls_sum_forward', 'src_calls_concat_forward', 'src_calls_stack', 'src_calls_unbind_forward', 'src_calls_slice']]   # ties to the source read on this run
 RULE = ('forward of every tensor op on operand ranks 0-5 over the whole argument space (same generators as C01 with rank <= 5, plus '
         '~10 % malformed arguments: accept/reject must agree); operator and reflected-operator forms with Python scalars on float64 '
         'and float32 tensors; constructors in their three shape spellings, eye, arange, *_like; several simultaneous and nested '
@@ -84,6 +85,12 @@ def ctor_case(rng):
         lines = [gen_dag.leaf_line(tuple(dims) or (2,), gen_dag.rand_data(rng, tuple(dims) or (2,)), False, rng.pick(['f32', 'f64'])), f"t ctor like {rng.randint(0, 1)} 0"]
     k = len(lines) - 1
     return {'kind': 'ctor', 'lines': lines + [f't val {k}', f't dtype {k}', f't flags {k}'], 'malformed': False}
+
+
+def extract():
+    """which NumPy calls the array kernels make is re-read from cpu_ops.py (Generated/KernelCalls.lean); the src_calls_* theorems are re-checked by the build"""
+    import array_formulas
+    return array_formulas.write()[0]
 
 
 def cases(rng, tier):
